@@ -471,8 +471,8 @@ def run(chk):
     fsets = [x for x in sets if x[0] in ('ctxinit', 'gen', 'interp', 'io', 'codepages@arena') or (not quick and x[0] == 'c2mir')]
     fsets += [x for x in sets if x[0].startswith('random')][:2 if quick else 40]
     for name, th, reps in fsets:
-        if found and time.time() - chk.t0 > (150 if quick else 1200):
-            break
+        if found and name != 'ctxinit' and time.time() - chk.t0 > (150 if quick else 1200):
+            continue   # the option-state scripts are cheap and give the most precise witness: always run
         fill_pass(chk, exe, name, th, found)
     chk.cov['heap_fill_sets'] = [x[0] for x in fsets]
     # --- the library's static data made read-only (validates the translator's "nothing is written" fact dynamically,
